@@ -86,6 +86,9 @@ fn out_step(real: &mut Side, twin: &mut Side, tr: &mut Track, op: &Op, i: usize,
     match op {
         Op::U32 => {
             let (v, used) = u32_of(real)?;
+            if v == 0 {
+                st.count("probe:u32_output_zero");
+            }
             st.log.u64(v as u64);
             st.log.u64(used);
             let opt = std::mem::replace(&mut tr.optional, false);
@@ -319,7 +322,7 @@ impl Scenario for C16 {
         }
     }
     fn rule(&self) -> String {
-        "Each run: a JitterRng over a scripted clock (same clock profiles and fault catalogue as C12, rounds 1..=255) with a workload biased to next_u32 pairs, next_u32 followed by each other output call, and clone while a half is pending; a twin over the same script is driven in lock-step with fresh-collection calls only. Per call, from the clock's read counter: the second of two consecutive next_u32 reads the timer 0 times and the pair equals the twin's next_u64; every other output call reads at least rounds (x number of 64-bit values) times and equals the twin's value (so a pending half is discarded, never re-served); the first output of a clone (made with clone(), or with clone_from() into a generator that is already in use and holds a pending half) reads its own forked clock at least rounds times and equals the first output of the twin's clone (which never had a half pending); the original still serves its pending half afterwards. fill_bytes(1..=4)/fill_bytes(0) with a half pending: both 'takes the pending half, reads nothing' and 'discards it' are accepted. distinct_nontrivial = distinct (op kind, op applied to clone, half pending, rounds bucket, fill length bucket) signatures.".into()
+        "Each run: a JitterRng over a scripted clock (same clock profiles and fault catalogue as C12, including the runs whose first collected value is crafted to have a zero half or to be zero; rounds 1..=255) with a workload biased to next_u32 pairs, next_u32 followed by each other output call, and clone while a half is pending; a twin over the same script is driven in lock-step with fresh-collection calls only. Per call, from the clock's read counter: the second of two consecutive next_u32 reads the timer 0 times and the pair equals the twin's next_u64; every other output call reads at least rounds (x number of 64-bit values) times and equals the twin's value (so a pending half is discarded, never re-served); the first output of a clone (made with clone(), or with clone_from() into a generator that is already in use and holds a pending half) reads its own forked clock at least rounds times and equals the first output of the twin's clone (which never had a half pending); the original still serves its pending half afterwards. fill_bytes(1..=4)/fill_bytes(0) with a half pending: both 'takes the pending half, reads nothing' and 'discards it' are accepted. distinct_nontrivial = distinct (op kind, op applied to clone, half pending, rounds bucket, fill length bucket) signatures.".into()
     }
     fn assumptions(&self) -> Vec<String> {
         vec![
@@ -340,6 +343,7 @@ impl Scenario for C16 {
             "probe:small_fill_with_half",
             "probe:fill0_with_half",
             "probe:clone_from_into_used_generator",
+            "probe:u32_output_zero",
         ]
     }
 }
